@@ -86,9 +86,10 @@ func coID(i int) desync.ChunkID { var id desync.ChunkID; id[0] = byte(i); return
 
 // coStore is the scripted upstream store: every call is a scheduling point and the scheduler
 // chooses what it answers.
-//   StoreChunk: 0 nil, 1 failure A, 2 failure B
-//   GetChunk:   0 missing, 1 failure, 10+d a chunk whose data carry d
-//   HasChunk:   bit 0 the answer, bit 1 an error next to it
+//
+//	StoreChunk: 0 nil, 1 failure A, 2 failure B
+//	GetChunk:   0 missing, 1 failure, 10+d a chunk whose data carry d
+//	HasChunk:   bit 0 the answer, bit 1 an error next to it
 type coStore struct{ s *coSched }
 
 func (u coStore) StoreChunk(c *desync.Chunk) error {
@@ -428,7 +429,8 @@ func runCoop(callers []coCaller, plain bool, p coPicker) coRun {
 		}
 	}
 	// runN resumes caller t with value v and waits for `expect` callers to reach their next hook (or the end);
-	// arrivals of one step are ordered marked-before-woke, the order the close of the channel imposes
+	// arrivals of one step are ordered marked-before-woke, the order the close of the channel imposes (the wake-ups
+	// of one step commute: each only reads the published request)
 	runN := func(t, v, expect int) bool {
 		status[t] = "running"
 		s.resume[t] <- v
@@ -446,8 +448,12 @@ func runCoop(callers []coCaller, plain bool, p coPicker) coRun {
 				return false
 			}
 		}
-		sort.SliceStable(arrs, func(i, j int) bool {
-			return strings.HasSuffix(arrs[i].site, ".marked") && !strings.HasSuffix(arrs[j].site, ".marked")
+		sort.SliceStable(arrs, func(i, j int) bool { // the woken callers by number: the record does not depend on who was faster
+			mi, mj := strings.HasSuffix(arrs[i].site, ".marked"), strings.HasSuffix(arrs[j].site, ".marked")
+			if mi != mj {
+				return mi
+			}
+			return arrs[i].t < arrs[j].t
 		})
 		for _, a := range arrs {
 			note(a)
@@ -714,11 +720,13 @@ func runC12Wdq(cfg Config, rep *Report, m *Model, rng *rand.Rand) {
 		}
 		return ">=40"
 	}
+	// a caller that does not come back costs a 5 s wait: three such runs are evidence enough
+	stuck := 0
 	// (1) mixed workloads on one WriteDedupQueue
-	for it := 0; it < cfg.N(320, 6000); it++ {
+	for it := 0; it < cfg.N(320, 6000) && stuck < 3; it++ {
 		n := 2 + rng.Intn(6)
 		nid := 1 + rng.Intn(2)
-		if rng.Intn(4) == 0 {
+		if rng.Intn(8) == 0 {
 			nid = 3
 		}
 		callers := make([]coCaller, n)
@@ -778,8 +786,15 @@ func runC12Wdq(cfg Config, rep *Report, m *Model, rng *rand.Rand) {
 				wcallers = append(wcallers, c)
 			}
 		}
+		// stale: a read that starts after a write of its chunk has finished joins a read request that is older than
+		// the end of that write (it is handed whatever that request's upstream call answers; cmd/staleread shows it
+		// on a real store) — allowed by the property as worded, counted here
+		stale := false
 		deleted := map[int]bool{}
-		for _, e := range run.events {
+		wroteAt := map[int]int{} // id -> index of the last wd
+		gLeadAt := map[int]int{} // id -> index of the gc of the read request in flight
+		lookAt := map[int]int{}  // reader -> index of its rp
+		for i, e := range run.events {
 			f := strings.Split(e, ":")
 			mi, _ := strconv.Atoi(f[1])
 			switch f[0] {
@@ -787,9 +802,25 @@ func runC12Wdq(cfg Config, rep *Report, m *Model, rng *rand.Rand) {
 				failed = failed || f[2] != "0"
 			case "wd":
 				deleted[wcallers[mi].id] = true
+				wroteAt[wcallers[mi].id] = i + 1
 			case "rp":
 				after = after || deleted[wcallers[mi].id]
+				lookAt[mi] = i + 1
+			case "gc":
+				id := wcallers[mi].id
+				if l, ok := gLeadAt[id]; ok { // joins the request in flight
+					if w := wroteAt[id]; w > 0 && l < w && w < lookAt[mi] {
+						stale = true
+					}
+				} else {
+					gLeadAt[id] = i + 1
+				}
+			case "gd":
+				delete(gLeadAt, wcallers[mi].id)
 			}
+		}
+		if stale {
+			tags = append(tags, "wdq-read-after-finished-write-joins-older-read")
 		}
 		if failed {
 			tags = append(tags, "wdq-failed-write")
@@ -800,7 +831,16 @@ func runC12Wdq(cfg Config, rep *Report, m *Model, rng *rand.Rand) {
 		rep.Count(line, joins > 0, tags...)
 		rep.Traces++
 		if run.deadlock != "" {
-			monitor("WriteDedupQueue under a cooperative schedule: deadlock / lost wake-up: "+run.deadlock, line)
+			what := "WriteDedupQueue under a cooperative schedule: deadlock / lost wake-up: " + run.deadlock
+			if m.cmd != nil { // what the machine says about the events recorded up to there
+				if got := m.Ask(line); !strings.HasPrefix(got, "accept") {
+					what += "; the machine about the recorded events: " + got
+				} else if !strings.HasPrefix(got, strings.SplitN(want, " final=", 2)[0]+" ") {
+					what += "; calls resolved (leader/follower, joined/passed) in the implementation: " + strings.Join(run.kinds, ".") + ", in the machine: " + got
+				}
+			}
+			monitor(what, line)
+			stuck++
 			continue
 		}
 		for _, pr := range run.problems {
@@ -815,13 +855,13 @@ func runC12Wdq(cfg Config, rep *Report, m *Model, rng *rand.Rand) {
 		}
 	}
 	// (2) HasChunk (and GetChunk next to it) on one plain DedupQueue: one machine per kind
-	for it := 0; it < cfg.N(120, 2400); it++ {
+	for it := 0; it < cfg.N(120, 2400) && stuck < 6; it++ {
 		n := 1 + rng.Intn(6)
-		nid := 1 + rng.Intn(3)
+		nid := 1 + rng.Intn(2)
 		callers := make([]coCaller, n)
 		for i := range callers {
 			callers[i] = coCaller{kind: 'H', id: 1 + rng.Intn(nid)}
-			if rng.Intn(5) == 0 {
+			if i > 0 && rng.Intn(5) == 0 {
 				callers[i].kind = 'R'
 			}
 		}
@@ -848,6 +888,7 @@ func runC12Wdq(cfg Config, rep *Report, m *Model, rng *rand.Rand) {
 			if run.deadlock != "" {
 				if i == 0 {
 					monitor("DedupQueue.HasChunk under a cooperative schedule: deadlock / lost wake-up: "+run.deadlock, line)
+					stuck++
 				}
 				continue
 			}
